@@ -8,7 +8,7 @@ import solvercase
 import solverrec
 
 
-class _Timeout(Exception):
+class _Timeout(BaseException):
     pass
 
 
